@@ -113,7 +113,7 @@ impl Check for C14 {
         let mut flags = vec![];
         super::c13::add_specials(&mut mr, &mut model, &mut flags, true);
         // a quarter of the worlds were something else before: more events, one more command
-        let prelude = if i % 4 == 1 {
+        let prelude = if (i / 8) % 4 == 1 {
             let before = model.clone();
             let mut stripped = false;
             for f in &mut model.files {
